@@ -286,14 +286,6 @@ class Classifier:
                         return Sp(s.s, True)
                 return s
             return None
-        if op == "binop" and t.name in ("+", "-") and len(t.args) == 2:
-            # an index array shifted by an offset is NOT an index into the same space any more (and a global edge number minus
-            # the first edge of its type is the rank within the type only when the types are stored block-wise)
-            a, b = self.space(t.args[0], kc, depth + 1), self.space(t.args[1], kc, depth + 1)
-            if (a is None) != (b is None):
-                s_ = a or b
-                return Sp(s_.s + "+offset", s_.sentinel, "index arithmetic")
-            return None
         if op == "ifexp":
             kt = key_test(t.args[0])
             if kt is not None:
@@ -345,7 +337,9 @@ class Classifier:
             # an index shifted by a scalar offset keeps its (global) numbering
             l = self.space(t.args[0], kc, depth + 1)
             r = t.args[1]
-            scalar = r.op == "sub" and r.args[1].op == "const" and isinstance(r.args[1].name, int)
+            scalar = (r.op == "sub" and r.args[1].op == "const" and isinstance(r.args[1].name, int)) or \
+                (r.op == "mcall" and r.name in ("first_valid_index", "last_valid_index", "min", "max", "item", "argmax", "argmin", "idxmin", "idxmax")) or \
+                (r.op == "call" and r.name in ("len", "int", "min", "max"))
             if l is not None and scalar:
                 return Sp(l.s, l.sentinel, "shifted by an offset")
             return None
